@@ -72,13 +72,14 @@ def register(reg):
                                                    "not result.dropped", "not result.synthetic"],
                                           "doc": "fresh message from the wire"},
         "message.meta.update": {"doc": "dict update on the fresh message"},
-        "self._ensure_message_allowed": {"may_raise": "PermissionError", "doc": "UDP ban list"},
+        "self._ensure_message_allowed": {"may_raise": "PermissionError", "ghost_on_raise": {"ban_raised": 1}, "record_as": "ban_check",
+                                         "doc": "UDP ban list"},
         "self.session_manager.claim_session": {"returns": "Opt[Obj:Session]", "fresh": False, "doc": "pending session lookup"},
         "self.session.open_circuit": {"returns": "Bool", "doc": "creates/keeps the region's circuit"},
         "self.session.region_by_circuit_addr": {"returns": "Opt[Obj:ProxiedRegion]", "fresh": False,
                                                 "post": ["implies(not is_none(result), wf(val(result).circuit.in_injections) and wf(val(result).circuit.out_injections))"],
                                                 "doc": "region lookup; live circuits' trackers are well formed (C04)"},
-        "region.circuit.collect_acks": {"doc": "completes futures of acked injected packets; no message state"},
+        "region.circuit.collect_acks": {"record_as": "collect", "doc": "completes futures of acked injected packets; no message state"},
         "AddonManager.handle_region_changed": {"doc": "addon hook (exceptions swallowed)"},
         "self.session.objects.track_region_objects": {"doc": "object manager bookkeeping"},
         "region.objects.load_cache": {"may_raise": "AnyException", "doc": "cache load"},
@@ -96,6 +97,7 @@ def register(reg):
         ensures=[
             "ncalls('send') <= 1 and ncalls('drop') <= 1 and ncalls('send') + ncalls('drop') <= 1",
             "ncalls('logged') <= 1",
+            "implies(packet.direction == Direction.IN and ncalls('collect') >= 1, ncalls('ban_check') == 1)",
             # the proxy's own bookkeeping ran whenever the proxy itself sent or dropped the message
             "implies(defined('message_logger') and truthy(message_logger), iff(defined('handled'), ncalls('logged') == 1))",
             "implies(ncalls('send') + ncalls('drop') >= 1, defined('handled'))",
@@ -104,6 +106,11 @@ def register(reg):
             "implies(defined('handled') and truthy(handled), ncalls('send') == 0)",
             # one handler's failure stops neither the other handler nor the addon hooks nor the bookkeeping
             "implies(ncalls('session_handler') == 1, ncalls('region_handler') == 1 and defined('handled'))",
+        ],
+        ensures_on_raise=[
+            # a banned message is discarded before anything else sees it (C06: without disturbing session state)
+            "implies(count('ban_raised') == 1, ncalls('collect') == 0 and ncalls('session_handler') == 0 and ncalls('region_handler') == 0 "
+            "and ncalls('logged') == 0 and ncalls('send') == 0 and ncalls('drop') == 0 and not defined('handled'))",
         ],
         frame=["session", "*.main_region", "*.handle", "*.cache_id", "*.name", "*.active_group", "packet.data",
                "*.finalized", "*.queued", "*.dropped", "*.packet_id", "*.synthetic", "*.acks", "*.send_flags",
